@@ -57,3 +57,82 @@ Print Assumptions C07_conditional_drops.
 Theorem C07_none_invented : forall aux hd orig c, In c (postprocess_chunks aux hd orig) -> In c aux.
 Proof. exact postprocess_sublist. Qed.
 Print Assumptions C07_none_invented.
+
+(* ================================================================ FILE TO FILE *)
+From OxiVerif Require Import Spec.Decode Spec.DecodeFile Model.Evaluate Model.Optimize Proofs.OutputProofs Proofs.InputParse Proofs.ApngProofs
+  Proofs.ContainerOk Proofs.ChunkFlow.
+
+(* the ancillary list PngData::from_slice builds from a file, as a closed formula over the specification's chunk list of that file *)
+Theorem C07_parsed_ancillary_list : forall e o bytes p cs, bytes_ok bytes ->
+  from_slice e bytes o = Ok p -> spec_parse_png bytes = Some cs ->
+  aux_chunks p = collect_aux o true (map as_chunk (removelast cs)).
+Proof. exact from_slice_aux. Qed.
+Print Assumptions C07_parsed_ancillary_list.
+
+(* ... which, for a file whose image data starts with a non-empty IDAT chunk, is: the kept chunks before it (each once, in file
+   order), the marker, the kept chunks after it (each once, in file order).  kept_at = not picture-defining, kept by the strip
+   policy, animation chunks only all together, not a C2PA manifest, not a frame chunk *)
+Theorem C07_parsed_closed_form : forall o before idat after,
+  Forall (fun c => cname_eqb (c_name c) name_IDAT = false) before ->
+  cname_eqb (c_name idat) name_IDAT = true -> c_data idat <> [] ->
+  collect_aux o true (before ++ idat :: after)
+  = List.filter (kept_at o true) before ++ {| c_name := c_name idat; c_data := [] |} :: List.filter (kept_at o false) after.
+Proof. exact collect_aux_closed_form. Qed.
+Print Assumptions C07_parsed_closed_form.
+
+Theorem C07_parse_invents_nothing : forall o cs ie c, In c (collect_aux o ie cs) ->
+  (cname_eqb (c_name c) name_IDAT = true /\ c_data c = []) \/ (In c cs /\ kept0 o c = true).
+Proof. exact collect_aux_in. Qed.
+Print Assumptions C07_parse_invents_nothing.
+
+(* the conditional drops are a filter that acts separately on the two sides of the image data *)
+Theorem C07_postprocess_each_side : forall pre m post hd orig, cname_eqb (c_name m) name_IDAT = true ->
+  postprocess_chunks (pre ++ m :: post) hd orig = List.filter (pp_keep hd orig) pre ++ m :: List.filter (pp_keep hd orig) post.
+Proof. exact postprocess_around_marker. Qed.
+Print Assumptions C07_postprocess_each_side.
+
+(* what is written for an ancillary list pre ++ marker :: post: IHDR, the chunks of pre that precede PLTE, PLTE/tRNS, the chunks of
+   pre that must follow PLTE, IDAT, the frames, post, IEND *)
+Theorem C07_written_closed_form : forall p pre m post,
+  aux_chunks p = pre ++ m :: post ->
+  Forall (fun c => cname_eqb (c_name c) name_IDAT = false) pre -> cname_eqb (c_name m) name_IDAT = true ->
+  Forall (fun c => cname_eqb (c_name c) name_IDAT = false) post ->
+  output_chunks p =
+    (name_IHDR, to_be32 (width (hdr (raw p))) ++ to_be32 (height (hdr (raw p))) ++
+                [depth (hdr (raw p)); png_header_code (ctype (hdr (raw p))); 0; 0; if interlaced (hdr (raw p)) then 1 else 0])
+    :: map as_pair (List.filter (fun c => negb (after_plte c)) pre)
+    ++ key_chunks (hdr (raw p))
+    ++ map as_pair (List.filter (write_special (hdr (raw p))) pre)
+    ++ (name_IDAT, idat_data p)
+    :: frame_chunk_list (frames p) (lenZ (List.filter (fun c => cname_eqb (c_name c) name_fcTL) (List.filter (write_special (hdr (raw p))) pre)))
+    ++ map as_pair post ++ [(name_IEND, [])].
+Proof. exact written_closed_form. Qed.
+Print Assumptions C07_written_closed_form.
+
+(* FILE TO FILE: the result is the input, or the serialisation of a PngData whose ancillary list is the parsed list after the ICC
+   decision (C14) and - when something was emitted - the conditional drops, and whose frames carry the same fields *)
+Theorem C07_file_chunk_flow : forall e o bytes out cs, bytes_ok bytes ->
+  spec_parse_png bytes = Some cs -> optimize_from_memory e o bytes = Ok out ->
+  out = bytes \/
+  exists p p', from_slice e bytes o = Ok p /\ optimize_png_data e p o = Ok p' /\ out = output p' /\
+    output p' = PNG_SIG ++ serialize (output_chunks p') /\
+    let aux0 := collect_aux o true (map as_chunk (removelast cs)) in
+    let aux1 := fst (preprocess_chunks e aux0 o) in
+    aux_chunks p = aux0 /\
+    (aux_chunks p' = aux1 \/ aux_chunks p' = postprocess_chunks aux1 (hdr (raw p')) (hdr (raw p))) /\
+    Forall2 (fun a b => same_frame_fields a b /\ (f_data b = f_data a \/ lenZ (f_data b) < lenZ (f_data a))) (frames p) (frames p').
+Proof. exact chunk_flow. Qed.
+Print Assumptions C07_file_chunk_flow.
+
+(* ORDER. Proved: the chunks before the image data are written as two classes, each in its own order (..._partial). The full
+   statement "same relative order" is FALSE of the code (finding F9): witness below, bKGD pHYs is written pHYs bKGD *)
+Theorem C07_order_partial : forall p, exists pre,
+  written_before p = map as_pair (List.filter (fun c => negb (after_plte c)) pre) ++ map as_pair (List.filter (write_special (hdr (raw p))) pre).
+Proof. exact written_before_two_classes. Qed.
+Print Assumptions C07_order_partial.
+
+Theorem C07_order_refuted :
+  map fst (map as_pair (match split_idat (aux_chunks f9_png) [] with x :: _ => x | [] => [] end)) = [name_bKGD; [112; 72; 89; 115]] /\
+  map fst (written_before f9_png) = [[112; 72; 89; 115]; name_bKGD].
+Proof. exact written_order_refuted. Qed.
+Print Assumptions C07_order_refuted.
